@@ -141,13 +141,12 @@ MANIFEST = dict(
          "is within 1% of half the box weight (+1 unit) or the slab just above the cut contains the half-weight mark "
          "(C10_gridrcb_boxes_all; the f64 facts about trunc(ideal*0.99), trunc(ideal*1.01) are proved with Flocq, C10_thresholds). "
          "TOLERANCE, the minimum chunk count / chunk size and the starting axes are re-read from rcb.rs / mod.rs on every run; the "
-         "model is compared with the implementation under rayon pools 1..16 (exact ids), and a checker proved sound for the "
-         "property statement (C10_checker_sound) judges every implementation output.",
+         "model is compared with the implementation under rayon pools 1..16 (exact ids), and a checker proved equivalent to the "
+         "statement (C10_checker_sound, C10_checker_complete) judges every implementation output.",
     design_ref="DESIGN.md §7 C10",
     note="Trusted: Coq kernel; classical-reals axioms (two theorems, via Flocq); the model<->code tie is the translator (TOLERANCE, "
          "min chunk count, min chunk size, start axes, threshold expressions) plus differential runs (1.8k/14.4k cases x pool sizes, "
-         "watchdog for hangs); SpecFloat = hardware f64; weight totals < 2^46 for the balance clause. The checker is proved sound "
-         "(accept => property), not complete.",
+         "watchdog for hangs); SpecFloat = hardware f64; weight totals < 2^46 for the balance clause.",
     technique="Coq proof (loop invariant + interval-halving measure, induction on iter_count, Flocq for the thresholds) + translator "
               "+ model/implementation correspondence under pools 1..16 + certified checker",
 )
